@@ -205,6 +205,23 @@ func successEdgesIn(top *ssa.Function, w *ssa.Call) [][2]*ssa.BasicBlock {
 		truth, set := false, false
 		for _, ret := range core.Returns(h) {
 			v, pol := core.StripNot(core.ReturnOperand(ret, last), true)
+			if ph, isPhi := v.(*ssa.Phi); isPhi && pol {
+				// `err == nil && more`: true only on edges that lie behind the nil test of w's error
+				okPhi := true
+				for i, e := range ph.Edges {
+					if b, isC := core.ConstBool(e); isC && !b {
+						continue
+					}
+					if !errGuardedNil(core.LastInstr(ph.Block().Preds[i]), w) {
+						okPhi = false
+					}
+				}
+				if !okPhi || (set && !truth) {
+					return nil
+				}
+				truth, set = true, true
+				continue
+			}
 			x, neq, isCmp := errCmpNil(v)
 			if !isCmp || !fromW(x) {
 				return nil
